@@ -1595,6 +1595,125 @@ def _fd_protected(f, x):
     return False
 
 
+# ================================================================================================ string length bound
+
+def _reject_polarity(fn, cmp_id):
+    """True / False if comparison cmp_id evaluating to that truth value necessarily leads to a throw; None if it is not a reject
+    guard.  Understands `if (cmp)`, `if (!cmp)`, cmp as a disjunct of a condition whose true edge throws / a conjunct of one whose
+    false edge throws, and a local that only names the comparison."""
+    def exit_t(x):
+        return isinstance(x, tuple) and x[0] == 'exit'
+
+    def throws(bid):
+        if bid is None:
+            return False
+        return path_search(fn, bid, exit_t, lambda x: fn.nodes[x].get('k') == 'throw', from_block_start=True) is None
+
+    def find(nid, want, depth=0):
+        """polarities p such that: cond == want  implies  cmp == p   ... returns set of p for which cmp is *decisive* for `want`:
+        cond true  <= cmp == p (disjunct)   when want is True;  cond false <= cmp == p (conjunct negated) when want is False."""
+        n = codec.through_locals(fn, nid)
+        if n is None or depth > 8:
+            return set()
+        if n['id'] == cmp_id:
+            return {want}
+        if n.get('k') == 'unop' and n.get('op') == '!':
+            return find(n['sub'], not want, depth + 1)
+        if n.get('k') == 'binop' and n.get('op') == '||' and want:
+            return find(n['lhs'], True, depth + 1) | find(n['rhs'], True, depth + 1)
+        if n.get('k') == 'binop' and n.get('op') == '&&' and not want:
+            return find(n['lhs'], False, depth + 1) | find(n['rhs'], False, depth + 1)
+        return set()
+    out = set()
+    for b in fn.blocks.values():
+        if 'cond' not in b or len(b['succs']) != 2 or b.get('termcls') in ('BinaryOperator', 'SwitchStmt'):
+            continue
+        t, f = b['succs']
+        if throws(t) and not throws(f):
+            out |= find(b['cond'], True)
+        elif throws(f) and not throws(t):
+            out |= find(b['cond'], False)
+    if len(out) == 1:
+        return next(iter(out))
+    return None
+
+
+def string_length_rules(fb, R):
+    """Every reject-guard that compares a length with osmium::max_osm_string_length rejects exactly len > max: one bound for
+    builders (what a writer can be handed) and readers (what they accept back)."""
+    mx = None
+    for e in fb.enums:
+        for en in e['enumerators']:
+            if en['name'] == 'max_osm_string_length' and e['q'].startswith('osmium::'):
+                mx = int(en['value'])
+    if mx is None:
+        # the enum itself lies outside the analysed roots: take the folded value at a use site
+        for fn in fb.functions:
+            for x in (fn.all_nodes() if fn.has_cfg else ()):
+                if x.get('k') == 'var' and x.get('vk') == 'enumconst' and x.get('name') == 'max_osm_string_length' and 'cv' in x:
+                    mx = int(x['cv'])
+    if mx is None:
+        R.broken('osmium::max_osm_string_length not found')
+        return
+    flip = {'<': '>', '>': '<', '<=': '>=', '>=': '<=', '==': '==', '!=': '!='}
+    for fn in fb.functions:
+        if not fn.has_cfg:
+            continue
+        for n in fn.all_nodes():
+            if n.get('k') != 'binop' or n.get('op') not in _CMP:
+                continue
+            side = None
+            bound = mx
+            for nm in ('lhs', 'rhs'):
+                x = codec.through_locals(fn, n[nm])
+                if x is None:
+                    continue
+                # the constant itself or a constant expression built from it (`max_osm_string_length + 1`)
+                if any(fn.nodes[y].get('k') == 'var' and fn.nodes[y].get('vk') == 'enumconst' and fn.nodes[y].get('name') == 'max_osm_string_length'
+                       for y in fn.subtree(x['id'])) and fn.const_value(x['id']) is not None:
+                    side = nm
+                    bound = fn.const_value(x['id'])
+            if side is None:
+                continue
+            pol = _reject_polarity(fn, n['id'])
+            if pol is None:
+                continue   # not a reject guard (no outcome necessarily throws)
+            op = n['op'] if side == 'rhs' else flip[n['op']]
+            other = n['lhs'] if side == 'rhs' else n['rhs']
+            rejected = [(_CMP[op](v, bound) == pol) for v in (mx - 1, mx, mx + 1)]
+            key = '%s(%s)#%s' % (fn.q, ', '.join(p['tC'] for p in fn.params), fn.expr(other))
+            what = ('rejects a string of exactly max_osm_string_length (%d) bytes that the other builders, writers and readers accept' % mx
+                    if rejected[1] else 'accepts strings longer than max_osm_string_length (%d) that every other site rejects' % mx
+                    if not rejected[2] else 'rejects strings shorter than the maximum')
+            R.check(rejected == [False, False, True], 'string-length-bound-agrees', key, fn.loc(n['id']),
+                    '%s: the guard `%s` %s' % (fn.q, fn.expr(n['id']), what))
+
+
+# ================================================================================================ XML self-closing elements
+
+def xml_self_closing_rules(fb, R):
+    """An object element is written in the self-closing form `<way .../>` only when every sub-collection that the long form writes
+    (tags; nodes; members; discussion) is empty -- otherwise those children are silently dropped."""
+    from .. import c01_util as U
+    sites = U.xml_self_closing_sites(fb, (NS + 'XMLOutputBlock', NS + 'XMLOutputFormat'))
+    if sites is None:
+        R.broken('XML writer: cannot determine the root element of a function that emits a self-closing tag')
+        return
+    n = 0
+    for (fn, node, root, written) in sites:
+        if not written:
+            continue
+        n += 1
+        empty = U.emptiness_guards(fb, fn, node)
+        missing = sorted(written - empty)
+        R.check(not missing, 'xml-self-closing-only-when-empty', '%s#<%s/>' % (fn.q, root), fn.loc(node),
+                '%s closes <%s .../> early when %s, but the long form also writes %s: an object with %s loses them'
+                % (fn.q, root, ' and '.join('%s() is empty' % e for e in sorted(empty)) or 'nothing is tested', ', '.join(m + '()' for m in missing),
+                   ' / '.join(missing)))
+    if n == 0:
+        R.broken('XML writer: no self-closing object element found (node/way/relation/changeset)')
+
+
 # ================================================================================================ driver
 
 def run(ctx):
@@ -1609,6 +1728,8 @@ def run(ctx):
             delta_width_rules(fb, R, tabs[0], tabs[1])
         writer_order_rules(fb, R)
         compression_layer_rules(fb, R)
+        string_length_rules(fb, R)
+        xml_self_closing_rules(fb, R)
         metadata_option_rules(fb, R)
         block_limit_rules(fb, R)
         block_switch_rules(fb, R)
@@ -1630,6 +1751,8 @@ def run(ctx):
         ('reader-decompressor-honours-compression', 3),  # make_decompressor: 2 factory calls + DummyDecompressor
         ('writer-compressor-honours-compression', 1),    # Writer constructor
         ('reader-fd-for-parser-only-if-not-real', 1),    # Reader constructor
+        ('string-length-bound-agrees', 11),              # 10 builder guards (add_tag x6, add_role, add_user, set_user x2) + decode_stringtable
+        ('xml-self-closing-only-when-empty', 4),         # XMLOutputBlock::node, way, relation, changeset
         ('dense-column-gates-agree', 10),        # the 10 vector members of DenseNodes
         ('dense-columns-parallel', 10),
         ('info-field-gated-by-own-option', 16),  # 6 Info + 6 DenseInfo fields, 3 Info + 1 DenseInfo containers
@@ -1674,6 +1797,8 @@ def _st_block(fb, R):
 def _st_text(fb, R):
     xml_rules(fb, R)
     opl_rules(fb, R)
+    xml_self_closing_rules(fb, R)
+    string_length_rules(fb, R)
 
 
 SELFTESTS = [
@@ -1699,6 +1824,8 @@ SELFTESTS = [
     ('blob-header-length-byte-order', 'c01_block.cpp', _st_block),
     ('xml-constant-value-accepted', 'c01_text.cpp', _st_text),
     ('xml-name-dispatched', 'c01_text.cpp', _st_text),
+    ('xml-self-closing-only-when-empty', 'c01_text.cpp', _st_text),
+    ('string-length-bound-agrees', 'c01_text.cpp', _st_text),
     ('text-field-gated-by-own-option', 'c01_text.cpp', _st_text),
     ('opl-letter-dispatched', 'c01_text.cpp', _st_text),
     ('wire-name-accessor-pairing', 'c01_text.cpp', _st_text),
